@@ -632,6 +632,7 @@ func genC04(c *Ctx) {
 	c04LargePrimes(c)
 	c04HoistedLevels(c)
 	c04RecycleLevels(c)
+	c04DerivedKeys(c)
 	c04Malformed(c)
 	c04DegreeSwitch(c)
 	c04Packing(c)
